@@ -26,7 +26,8 @@ def canon_outcome(fn):
             msg = str(e)
         except Exception as e2:
             msg = '<str failed %r>' % (e2,)
-        return ['err', type(e).__name__, ADDR.sub('', msg)]
+        # (the names of the bases too: two classes may share their name)
+        return ['err', type(e).__name__, ADDR.sub('', msg), [c.__name__ for c in type(e).__mro__]]
     if hasattr(v, '__next__'):
         try:
             v = ['<iterator>', list(v)]
